@@ -32,10 +32,17 @@ QAdd(a, b) == V(Norm(a[1] * b[2] + b[1] * a[2], a[2] * b[2]))
 QSub(a, b) == V(Norm(a[1] * b[2] - b[1] * a[2], a[2] * b[2]))
 QMul(a, b) == V(Norm(a[1] * b[1], a[2] * b[2]))
 QDiv(a, b) == IF b[1] = 0 THEN ZD ELSE V(Norm(a[1] * b[2], a[2] * b[1]))
-\* a || b = 1 / (1/a + 1/b), and 0 as soon as an operand is 0
-QPar(a, b) == IF a[1] = 0 \/ b[1] = 0 THEN V(<<0, 1>>)
-              ELSE LET s == Norm(a[2] * b[1] + b[2] * a[1], a[1] * b[1]) IN     \* 1/a + 1/b
-                   IF ~Safe(s) THEN NP ELSE IF s[1] = 0 THEN ZD ELSE V(Norm(s[2], s[1]))
+\* a1 || ... || an = 1 / (1/a1 + ... + 1/an), and 0 as soon as an operand is 0 (n-ary: partial sums may vanish)
+RECURSIVE RecipSum(_, _, _)
+RecipSum(qs, i, acc) ==        \* acc: rational so far, or <<0, 0>> when it left the safe range
+  IF i > Len(qs) \/ acc = <<0, 0>> THEN acc
+  ELSE LET q == qs[i]
+           nx == Norm(acc[1] * q[1] + q[2] * acc[2], acc[2] * q[1])        \* acc + 1/q
+       IN RecipSum(qs, i + 1, IF Safe(nx) THEN nx ELSE <<0, 0>>)
+QParN(qs) == IF \E i \in 1..Len(qs) : qs[i][1] = 0 THEN V(<<0, 1>>)
+             ELSE LET s == RecipSum(qs, 1, <<0, 1>>) IN
+                  IF s = <<0, 0>> THEN NP ELSE IF s[1] = 0 THEN ZD ELSE V(Norm(s[2], s[1]))
+QPar(a, b) == QParN(<<a, b>>)
 RECURSIVE QIPow(_, _)
 QIPow(a, n) == IF n = 0 THEN V(<<1, 1>>)
                ELSE LET r == QIPow(a, n - 1) IN IF r.k # "v" THEN r ELSE QMul(r.q, a)
@@ -67,6 +74,7 @@ Ev(t) ==
        IF as.k # "args" THEN as
        ELSE IF Len(as.qs) # FuncArity[t.n] THEN AE
        ELSE Apply(t.n, as.qs)
+  ELSE IF t.t = "par" THEN LET as == EvArgs(t.xs, 1, <<>>) IN IF as.k # "args" THEN as ELSE QParN(as.qs)
   ELSE IF t.t = "neg" THEN LET x == Ev(t.a) IN IF x.k # "v" THEN x ELSE QNeg(x.q)
   ELSE IF t.t = "pow" THEN LET x == Ev(t.a) y == Ev(t.b) IN
        IF x.k # "v" THEN x ELSE IF y.k # "v" THEN y
@@ -75,8 +83,7 @@ Ev(t) ==
        IF t.t = "add" THEN Lift2(QAdd, x, y)
        ELSE IF t.t = "sub" THEN Lift2(QSub, x, y)
        ELSE IF t.t = "mul" THEN Lift2(QMul, x, y)
-       ELSE IF t.t = "div" THEN Lift2(QDiv, x, y)
-       ELSE Lift2(QPar, x, y)
+       ELSE Lift2(QDiv, x, y)
 
 (* Outcome of evaluating a token string in the scope, in the order the library reports problems:
    unbalanced > unparsable > undefined variable > undefined function > undefined suffix > evaluation *)
@@ -89,7 +96,7 @@ Outcome(s) ==
        ELSE IF us.sufs \ DOMAIN SufVal # {} THEN [c |-> "undefsuf"] @@ us
        ELSE LET x == Ev(p.t) IN
             IF x.k = "v" THEN [c |-> "value", q |-> x.q] @@ us
-            ELSE IF x.k = "np" THEN [c |-> "nopred"] @@ us
+            ELSE IF x.k = "np" THEN [c |-> "nopred", arr |-> HasArr(p.t)] @@ us     \* arr: ragged arrays may still be refused
             ELSE [c |-> x.k] @@ us
 \* coarse classes: what the property statement distinguishes
 Coarse(c) == IF c \in {"unbalanced", "parse"} THEN "rejected"
